@@ -4,5 +4,6 @@ set -e
 cd "$(dirname "$0")"
 /venv/bin/python tools/extract.py >/dev/null
 /venv/bin/python tools/translate.py >/dev/null
+/venv/bin/python tools/translate_prog.py >/dev/null
 cd lean
 lake build
